@@ -2,6 +2,7 @@
 # (rt.N(quick, thorough) per sub-check, per shard); this table only says how
 # to build and shard.
 CHECKS = {
+    "C08": dict(pkg="./c08", shards=16),
     "C13": dict(pkg="./c13", shards=4, build_main=True),
     "C17": dict(pkg="./c17", shards=16),
     "C19": dict(overlay_pkg="config", overlay_files=["c19/c19_overlay_test.go"], shards=16, run_filter="^TestC19"),
